@@ -660,11 +660,27 @@ def execute(plan, ctx):
                     ctx.fault("query_buffer_mutated_in_place")
                     last_answers = {}
                 probe = shared_probe(plan, fitted_on, ctx)
+                odd = None
                 if cls == "CR" and isinstance(probe[0], pd.DataFrame) and edits.next():
-                    # an odd but harmless query first: the same frame with its columns in another order (it may be
-                    # rejected or answered; either way it must not change what later queries return)
-                    ctx.call(est.transform, probe[0].iloc[:, ::-1].copy())
+                    # an odd query first: the same frame with its columns in another order (it may be rejected or
+                    # answered; either way it must not change what later queries return, and repeating it after
+                    # the other queries must repeat its own answer)
+                    odd_X = probe[0].iloc[:, ::-1].copy()
+                    oko, odd_ans, _ = ctx.call(est.transform, odd_X.copy())
+                    odd = (oko, np.array(odd_ans, copy=True) if oko else type(odd_ans).__name__, odd_X)
                     ctx.fault("odd_query_before")
+                    # ... an array query in between, then the odd query again: it must repeat its answer
+                    import warnings
+
+                    with warnings.catch_warnings():
+                        warnings.simplefilter("ignore")
+                        ctx.call(est.transform, probe[0].to_numpy())
+                    oko1, odd_ans1, _ = ctx.call(est.transform, odd_X.copy())
+                    again1 = np.array(odd_ans1, copy=True) if oko1 else type(odd_ans1).__name__
+                    if oko1 != oko or not same(odd[1], again1, tol=0):
+                        ctx.fail("C19.predict_mutates", f"{cls}: the same transform call (frame with reordered columns) answered "
+                                 f"differently after a transform of an array in between", sigbase)
+                        return
                 okd, d0, _ = ctx.call(observe, plan, est, fitted_on, plan["seeds"][1], probe)
                 if op == "predict_none" and cls in ("TO", "EG", "EGR"):
                     ctx.call(est.predict, probe[0], **probe[1])
@@ -679,6 +695,13 @@ def execute(plan, ctx):
                     ctx.fail("C19.predict_mutates", f"{cls}: repeating a predict-type call with the same seed changed the answer / fitted state "
                              f"({first_diff(d0, d1)})", sigbase)
                     return
+                if odd is not None:
+                    oko2, odd_ans2, _ = ctx.call(est.transform, odd[2].copy())
+                    again = np.array(odd_ans2, copy=True) if oko2 else type(odd_ans2).__name__
+                    if oko2 != odd[0] or not same(odd[1], again, tol=0):
+                        ctx.fail("C19.predict_mutates", f"{cls}: the same transform call (frame with reordered columns) answered "
+                                 f"differently after other transform calls in between", sigbase)
+                        return
                 # identity-insensitive expectation: the fresh reference estimator on a *copy* of the buffer
                 dref = None if ctx.scratch.get("resynced_or_known") else expected(fitted_on, cloned, plan["seeds"][1])
                 if dref is not None:
